@@ -93,6 +93,21 @@ Theorem C03_amended_input_rule :
     (changed_inputs w2 <> [] -> c_state w3 = SS_FAILED /\ draining w3 = true).
 Proof. exact amended_input_rule. Qed.
 
+(* What one amended input is classified as (the loop body of Workflow.amend_step over
+   _SupplyInfo.availability), for the (state, detached) pair that _resolve_supply_file reports:
+   unavailable  iff detached or the state is none of UNCONFIRMED, BUILT, CONFIRMED;
+   to be confirmed by a promoted hash job  iff attached and UNCONFIRMED;
+   unfresh  iff attached, BUILT, created by a step, and ran_concurrently(producer, this step);
+   the edge becomes dynamic iff it is new. *)
+Theorem C03_amend_classification :
+  forall (det : bool) (st : N) (producer_is_step ran new_edge : bool),
+    amend_input_gen det st producer_is_step ran new_edge =
+    (det || negb ((st =? FS_UNCONFIRMED) || (st =? FS_BUILT) || (st =? FS_CONFIRMED)),
+     negb det && (st =? FS_UNCONFIRMED),
+     negb det && (st =? FS_BUILT) && producer_is_step && ran,
+     new_edge)%bool.
+Proof. exact amend_input_spec. Qed.
+
 (* ---------------------------------------------------------------------------------------- *)
 (* Inputs that change underneath a running step.                                             *)
 (* ---------------------------------------------------------------------------------------- *)
@@ -119,6 +134,24 @@ Theorem C03_fresh_verdict_sound :
   forall (evs : list bev) (p c : N),
     mono 0 evs = true -> ran_conc (brun evs) p c = false -> ran_order evs p c = false.
 Proof. exact fresh_verdict_sound. Qed.
+
+(* The same for the stamp maps of ANY world reached from the empty world by events whose clock
+   readings never decrease (starts/stops of other steps, c's own start and stop, build_completed,
+   writes, other transactions, amend requests): they are the pruned image of one history `bl`;
+   "not unfresh" means that c's current start does not precede p's last successful stop in the
+   order of bl, and "unfresh" is justified by the never-pruned history. *)
+Theorem C03_reachable_verdict_sound :
+  forall (cid : N) (init : list N) (capv : N) (kg : bool) (evs : list ev) (p : N),
+    times_ok 0 evs ->
+    let w := run evs (world0 cid init capv kg) in
+    (ran_conc (bk w) p (c_id w) = false ->
+       exists bl, bk w = brun bl /\ mono 0 bl = true /\ ran_order bl p (c_id w) = false) /\
+    (ran_conc (bk w) p (c_id w) = true -> ran_ref (hs w) p (c_id w) = true).
+Proof.
+  intros cid init capv kg evs p Ht w.
+  destruct (book_hist_run evs _ 0 (book_hist_world0 cid init capv kg) Ht) as [now HB].
+  exact (reachable_verdict_sound w now p HB).
+Qed.
 
 (* ---------------------------------------------------------------------------------------- *)
 (* A step that ends SUCCEEDED.                                                               *)
